@@ -1,15 +1,16 @@
 #!/bin/sh
-# developer sweep: every claimed check under several seeds (quick) and once thorough; prints one line per run
+# developer sweep: tools/sweep.sh <tier> <seed> [ids...] -- every claimed check (or the given ones) once with the given
+# tier and seed, each in its own scratch work/evidence directory (so runs can go in parallel and the committed evidence
+# is untouched); one line per run, violations listed.
 cd "$(dirname "$0")/.." || exit 2
-IDS=$(/venv/bin/python -c "import json; print(' '.join(c['property_id'] for c in json.load(open('MANIFEST.json'))['checks']))")
-for id in $IDS; do
-  for seed in 1 2 3; do
-    VERIF_SEED=$seed ./check $id --tier quick > /tmp/sweep_${id}_q$seed.out 2>&1; rc=$?
-    echo "$id quick seed=$seed rc=$rc $(grep -c '^VIOLATION' /tmp/sweep_${id}_q$seed.out) violations; $(tail -1 /tmp/sweep_${id}_q$seed.out)"
-  done
-done
-for id in $IDS; do
-  VERIF_SEED=5 ./check $id --tier thorough > /tmp/sweep_${id}_t.out 2>&1; rc=$?
-  echo "$id thorough seed=5 rc=$rc $(grep -c '^VIOLATION' /tmp/sweep_${id}_t.out) violations; $(tail -1 /tmp/sweep_${id}_t.out)"
-  grep -A2 '^VIOLATION' /tmp/sweep_${id}_t.out | head -30
-done
+TIER=$1; SEED=$2; shift 2
+IDS="$*"
+[ -z "$IDS" ] && IDS=$(/venv/bin/python -c "import json; print(' '.join(c['property_id'] for c in json.load(open('MANIFEST.json'))['checks']))")
+run_one() {
+  id=$1; SW=/tmp/sweep_${id}_${TIER}_${SEED}; rm -rf $SW; mkdir -p $SW/work $SW/evidence
+  VERIF_SEED=$SEED VERIF_WORK=$SW/work VERIF_EVIDENCE=$SW/evidence ./check $id --tier $TIER > $SW/out 2>&1; rc=$?
+  echo "$id $TIER seed=$SEED rc=$rc $(grep -c '^VIOLATION' $SW/out) violations; $(tail -1 $SW/out)"
+  if [ $rc -ne 0 ]; then grep -A3 '^VIOLATION\|MACHINERY' $SW/out | head -40; mkdir -p /verif/.work/sweep_fail; cp -r $SW /verif/.work/sweep_fail/; fi
+  rm -rf $SW
+}
+for id in $IDS; do run_one $id; done
